@@ -168,6 +168,179 @@ func ruleR1(c *Ctx) {
 	c.check(nloops >= 10, "R1", "loops", token.NoPos, fmt.Sprintf("%d resumable loops analysed, %d carried locals besides the index", nloops, ncarried))
 }
 
+// R1b: outside the scanning loop (value loops, header loops), a local that is carried round a loop must not be
+// call history: it starts from the offs parameter (continuation offset), or from the state object, or its
+// carried value is never observed (no branch, store, call argument, index or return depends on it).
+func ruleR1b(c *Ctx) {
+	e := newErrAnalysis(c.Prog)
+	nheads, nphis := 0, 0
+	for _, f := range streamingFuncs(c, e) {
+		mh, _ := mainLoop(f)
+		fk := ssaKey(f)
+		bp := bufParam(f)
+		var offsP *ssa.Parameter
+		for j, p := range f.Params {
+			if p == bp && j+1 < len(f.Params) {
+				offsP = f.Params[j+1]
+			}
+		}
+		for _, head := range f.Blocks {
+			if head == mh {
+				continue
+			}
+			isHead := false
+			for _, p := range head.Preds {
+				if head.Dominates(p) {
+					isHead = true
+				}
+			}
+			if !isHead {
+				continue
+			}
+			nheads++
+			cnt := map[string]int{}
+			for _, ins := range head.Instrs {
+				ph, ok := ins.(*ssa.Phi)
+				if !ok {
+					break
+				}
+				carried := false
+				for i, ed := range ph.Edges {
+					if head.Dominates(head.Preds[i]) && ed != ssa.Value(ph) {
+						carried = true
+					}
+				}
+				if !carried {
+					continue
+				}
+				nphis++
+				name := ph.Comment
+				if name == "" {
+					name = "tmp"
+				}
+				cnt[name]++
+				key := fk + ":" + name
+				if cnt[name] > 1 {
+					key += "#" + itoa(cnt[name])
+				}
+				// entry values
+				fromOffs, fromState := true, true
+				for i, ed := range ph.Edges {
+					if head.Dominates(head.Preds[i]) {
+						continue
+					}
+					if !derivedFromParam(ed, offsP, 0) {
+						fromOffs = false
+					}
+					u, isLoad := ed.(*ssa.UnOp)
+					if !(isLoad && u.Op == token.MUL && strings.HasPrefix(addrRoot(u.X), "param:")) {
+						fromState = false
+					}
+				}
+				switch {
+				case fromOffs:
+					c.ok("R1b", key, ph.Pos(), "carried local "+name+" starts from the offs parameter: the continuation offset the caller passes back")
+				case fromState:
+					c.ok("R1b", key, ph.Pos(), "carried local "+name+" is re-loaded from the state object at entry")
+				default:
+					sink := observedUse(ph)
+					if sink == "" && perCallResult {
+						c.excepted("R1b", key, ph.Pos(), "carried local "+name+" counts work done in this call and is only handed back in a result of its own (neither offset nor verdict): a documented per-call count, no state, branch or offset depends on it")
+						continue
+					}
+					c.check(sink == "", "R1b", key, ph.Pos(), "carried local "+name+" starts afresh on every call (not from offs, not from the state object), so its value counts work done in this call only; nothing observable may depend on it"+sink)
+				}
+			}
+		}
+	}
+	c.check(nheads >= 4, "R1b", "loops", token.NoPos, fmt.Sprintf("%d non-scanning loops in resumable functions analysed, %d carried locals", nheads, nphis))
+}
+
+func derivedFromParam(v ssa.Value, p *ssa.Parameter, depth int) bool {
+	if p == nil || depth > 6 {
+		return false
+	}
+	switch x := v.(type) {
+	case *ssa.Parameter:
+		return x == p
+	case *ssa.BinOp:
+		_, cx := x.X.(*ssa.Const)
+		_, cy := x.Y.(*ssa.Const)
+		return (cy && derivedFromParam(x.X, p, depth+1)) || (cx && derivedFromParam(x.Y, p, depth+1))
+	case *ssa.Phi:
+		for _, e := range x.Edges {
+			if !derivedFromParam(e, p, depth+1) {
+				return false
+			}
+		}
+		return len(x.Edges) > 0
+	case *ssa.Convert:
+		return derivedFromParam(x.X, p, depth+1)
+	case *ssa.ChangeType:
+		return derivedFromParam(x.X, p, depth+1)
+	}
+	return false
+}
+
+// observedUse: does anything observable depend on v (other than v's own update)? "" if not.
+var perCallResult bool
+
+func observedUse(root *ssa.Phi) string {
+	perCallResult = false
+	seen := map[ssa.Value]bool{root: true}
+	work := []ssa.Value{root}
+	for len(work) > 0 {
+		v := work[0]
+		work = work[1:]
+		refs := v.Referrers()
+		if refs == nil {
+			continue
+		}
+		for _, r := range *refs {
+			switch x := r.(type) {
+			case *ssa.DebugRef:
+			case *ssa.If:
+				return ": a branch at " + posStr(x.Block().Parent(), x.Cond.Pos()) + " tests it"
+			case *ssa.Store:
+				return ": it is stored at " + posStr(x.Block().Parent(), x.Pos())
+			case *ssa.Return:
+				ei := errResultIndex(x.Block().Parent())
+				own := true
+				for i, rv := range x.Results {
+					if rv == v && (i == 0 || i == ei) {
+						own = false
+					}
+				}
+				if own && len(x.Results) > 2 {
+					perCallResult = true // a result of its own (neither the offset nor the verdict)
+					continue
+				}
+				return ": it is returned at " + posStr(x.Block().Parent(), x.Pos())
+			case *ssa.Call:
+				return ": it is passed to a call at " + posStr(x.Block().Parent(), x.Pos())
+			case *ssa.IndexAddr, *ssa.Index, *ssa.Lookup, *ssa.Slice:
+				return ": it selects an element at " + posStr(r.Block().Parent(), r.Pos())
+			case ssa.Value:
+				if !seen[x] {
+					seen[x] = true
+					work = append(work, x)
+				}
+			default:
+				return ": it is used by " + r.String()
+			}
+		}
+	}
+	return ""
+}
+
+func posStr(fn *ssa.Function, p token.Pos) string {
+	if fn == nil || fn.Prog == nil || !p.IsValid() {
+		return "?"
+	}
+	ps := fn.Prog.Fset.Position(p)
+	return fmt.Sprintf("%s:%d", ps.Filename[strings.LastIndex(ps.Filename, "/")+1:], ps.Line)
+}
+
 // R2: verdict <-> typestate.
 func ruleR2(c *Ctx) {
 	type spec struct{ fn, fin, err string; okStates []string }
@@ -378,6 +551,124 @@ func ruleR3(c *Ctx) {
 	c.check(len(ks) >= 10, "R3", "suspended-states", token.NoPos, fmt.Sprintf("%d states can be left by a more-bytes exit of ParseHdrLine", len(ks)))
 }
 
+// R3b: the dispatch state of the header-line parser is never left in the object without the dispatcher having
+// run. The dispatcher is the closure that selects the typed sub-parser; the dispatch state is the constant the
+// caller compares the state with right after calling it. On every path from a store of that constant to a
+// return whose verdict is not an error, the dispatcher is called or the state is overwritten first: otherwise a
+// resume re-enters in the generic-value state and the typed value is never parsed.
+func ruleR3b(c *Ctx) {
+	e := newErrAnalysis(c.Prog)
+	n := 0
+	for _, f := range streamingFuncs(c, e) {
+		fk := ssaKey(f)
+		ei := errResultIndex(f)
+		// dispatcher calls + dispatch state constants
+		disp := map[ssa.Instruction]bool{}
+		var stateFA *ssa.FieldAddr
+		consts := map[int64]bool{}
+		for _, b := range f.Blocks {
+			for _, ins := range b.Instrs {
+				call, ok := ins.(*ssa.Call)
+				if !ok {
+					continue
+				}
+				var callee *ssa.Function
+				switch v := call.Call.Value.(type) {
+				case *ssa.Function:
+					callee = v
+				case *ssa.MakeClosure:
+					callee, _ = v.Fn.(*ssa.Function)
+				}
+				if callee == nil || callee.Parent() != f {
+					continue
+				}
+				// the state test that follows
+				for _, ins2 := range b.Instrs {
+					iff, ok := ins2.(*ssa.If)
+					if !ok {
+						continue
+					}
+					bo, ok := iff.Cond.(*ssa.BinOp)
+					if !ok || (bo.Op != token.NEQ && bo.Op != token.EQL) {
+						continue
+					}
+					ld, ok := bo.X.(*ssa.UnOp)
+					k, isC := constIntOf(bo.Y)
+					if !ok || !isC || ld.Op != token.MUL {
+						continue
+					}
+					if fa, ok := ld.X.(*ssa.FieldAddr); ok && strings.HasPrefix(addrRoot(fa), "param:") {
+						stateFA = fa
+						consts[k] = true
+						disp[call] = true
+					}
+				}
+			}
+		}
+		if stateFA == nil {
+			continue
+		}
+		cell := fieldCell(stateFA)
+		cnt := 0
+		for _, b := range f.Blocks {
+			for idx, ins := range b.Instrs {
+				st, ok := ins.(*ssa.Store)
+				if !ok {
+					continue
+				}
+				fa, ok := st.Addr.(*ssa.FieldAddr)
+				k, isC := constIntOf(st.Val)
+				if !ok || !isC || !consts[k] || fieldCell(fa) != cell {
+					continue
+				}
+				cnt++
+				n++
+				// forward search
+				bad := token.NoPos
+				seen := map[*ssa.BasicBlock]bool{}
+				type item struct {
+					b    *ssa.BasicBlock
+					from int
+				}
+				work := []item{{b, idx + 1}}
+				for len(work) > 0 && bad == token.NoPos {
+					it := work[len(work)-1]
+					work = work[:len(work)-1]
+					killed := false
+					for _, i2 := range it.b.Instrs[it.from:] {
+						if disp[i2] {
+							killed = true
+							break
+						}
+						if s2, ok := i2.(*ssa.Store); ok {
+							if fa2, ok := s2.Addr.(*ssa.FieldAddr); ok && fieldCell(fa2) == cell {
+								killed = true
+								break
+							}
+						}
+						if ret, ok := i2.(*ssa.Return); ok {
+							if ei >= 0 && e.at(ret.Results[ei], it.b)&VSet(0x1f) != 0 {
+								bad = ret.Pos()
+							}
+						}
+					}
+					if killed {
+						continue
+					}
+					for _, sb := range it.b.Succs {
+						if !seen[sb] {
+							seen[sb] = true
+							work = append(work, item{sb, 0})
+						}
+					}
+				}
+				c.check(bad == token.NoPos, "R3b", fmt.Sprintf("%s:dispatch-state-store#%d", fk, cnt), st.Pos(), "from this store of the dispatch state to "+cell+", every path to a non-error return first calls the typed-header dispatcher or overwrites the state"+map[bool]string{true: "", false: "; a return at " + posStr(f, bad) + " is reachable with the dispatch state left in the object and no dispatch done"}[bad == token.NoPos])
+			}
+		}
+	}
+	c.check(n >= 2, "R3b", "stores", token.NoPos, fmt.Sprintf("%d stores of a dispatch state analysed", n))
+}
+
 // R5: slot persistence (C13-K2 keep-on-more-bytes).
 func ruleR5(c *Ctx) {
 	t := &Ctx{Prog: c.Prog, Prop: c.Prop}
@@ -410,8 +701,10 @@ func ruleR6(c *Ctx) {
 func init() {
 	rules := []Rule{
 		{"R1", "nothing live is lost at a suspension: in every resumable loop the scan index starts from the offs parameter and is what every more-bytes-capable return returns; every other local that is modified in the loop and live across iterations (loop-head phi) is re-loaded from a state field at entry and saved to it before every more-bytes-capable return, or is never read across iterations on any verdict-feasible path", ruleR1},
+		{"R1b", "value loops and header loops (every loop of a resumable function other than its scanning loop): a local carried round the loop starts from the offs parameter or from the state object, or nothing observable (branch, store, call argument, element selection, return) depends on it — a counter that starts afresh on every call counts work done in this call only, which differs between a one-shot and a resumed parse", ruleR1b},
 		{"R2", "verdict <-> typestate on the extracted automata and per-state path enumerations: no more-bytes exit leaves the object in its finished/error state, every success exit does leave it finished (or in the documented next-value state), and a finished object returns (offs, 0) at once", ruleR2},
 		{"R3", "dispatch-table agreement (writer = reader) for the 8 typed headers, and every state a more-bytes exit can leave in the header object has a re-entry case", ruleR3},
+		{"R3b", "the dispatch state of the header-line parser (the state its caller compares with right after calling the typed-header dispatcher closure) is never left in the object undispatched: from every store of it, every path to a non-error return first calls the dispatcher or overwrites the state", ruleR3b},
 		{"R4", "the verdict of every call to a callee that may report more-bytes is returned or tested, never discarded", ruleR4},
 		{"R6", "read-back values that must not depend on how the input was cut: the raw-message / buffer views use the start offset saved on the first call (never the current call's offset), and the header counters advance exactly on first entry of a header, not on resume", ruleR6},
 		{"R5", "slot persistence of the list parsers: no reset of the in-progress slot on more-bytes paths or before the sub-parser is re-entered; reset before the next element", ruleR5},
